@@ -166,7 +166,10 @@ class Snap:
         for name in sorted(vars(c)):
             if name in ('__dict__', '__weakref__', '__module__',
                         '__doc__', '__qualname__', '__firstlineno__',
-                        '__static_attributes__'):
+                        '__static_attributes__',
+                        # interpreter bookkeeping, not library state:
+                        # copyreg caches the slot names of a class here
+                        '__slotnames__'):
                 continue
             self.put('cattr', name)
             self.value(vars(c)[name], depth + 1)
@@ -179,7 +182,10 @@ def snapshot():
         s.put('MODULE', name)
         for gname in sorted(vars(mod)):
             if gname in ('__builtins__', '__cached__', '__file__',
-                         '__loader__', '__spec__', '__path__', '__doc__'):
+                         '__loader__', '__spec__', '__path__', '__doc__',
+                         # the warnings module records here which warnings
+                         # were already shown from this module
+                         '__warningregistry__'):
                 continue
             s.put('global', gname)
             s.value(vars(mod)[gname])
